@@ -30,12 +30,42 @@ Definition all_empty {A} (d : list (str * list A)) : bool :=
 Definition as_dict {A} (l : list (str * A)) : list (str * A) :=
   fold_left (fun d kv => dict_set (fst kv) (snd kv) d) l [].
 
-(* for div in find_all('div'): caption_dict[lang] = ... ; empty set -> CaptionReadNoCaptions *)
-Definition dfxp_read_tree (default : str) (tt_lang : option str) (divs : list (option str * list xp))
-  : result (list (str * list (Z * Z))) :=
-  do l <- res_map (fun dv : option str * list xp =>
-                     do caps <- dfxp_div_caps (snd dv); Ok (div_lang (fst dv) tt_lang default, caps)) divs;
-  let d := as_dict l in
+(* ---- whole DFXP documents (after the fix: commit "DFXP reader kept only the last <div> of a language") ----
+   What the reader asks of the tree: find_all('div') and find_all('p') in document order; for a <p> its nearest
+   enclosing <div>; for a <div> its own xml:lang and those of the enclosing <div>s.  A lang_chain lists the
+   xml:lang attributes from the nearest <div> outward. *)
+Definition lang_chain : Type := list (option str).
+
+(* _find_div_language: the first xml:lang on the way out, else tt's, else DEFAULT_LANGUAGE_CODE *)
+Fixpoint chain_lang (default : str) (tt_lang : option str) (ch : lang_chain) : str :=
+  match ch with
+  | Some l :: _ => l
+  | None :: t => chain_lang default tt_lang t
+  | [] => match tt_lang with Some l => l | None => default end
+  end.
+
+(* for div in find_all('div'): if lang not in caption_dict: caption_dict[lang] = CaptionList() *)
+Definition first_seen (ls : list str) : list str :=
+  fold_left (fun acc l => if existsb (str_eqb l) acc then acc else acc ++ [l]) ls [].
+
+(* caption_dict[lang].append(caption) *)
+Definition dict_push {A} (k : str) (v : A) (d : list (str * list A)) : list (str * list A) :=
+  map (fun kv => if str_eqb (fst kv) k then (fst kv, snd kv ++ [v]) else kv) d.
+
+(* for p in find_all('p'): div = p.find_parent('div'); if div is not None and p.get_text().strip(): ... *)
+Definition dfxp_read_doc (default : str) (tt_lang : option str) (divs : list lang_chain)
+           (ps : list (option lang_chain * xp)) : result (list (str * list (Z * Z))) :=
+  do caps <- res_map (fun cp : option lang_chain * xp =>
+                        match fst cp with
+                        | Some ch =>
+                            if xp_text (snd cp)
+                            then do c <- (let '(b, e, d) := xp_times (snd cp) in dfxp_p_times b e d);
+                                 Ok (Some (chain_lang default tt_lang ch, c))
+                            else Ok None
+                        | None => Ok None
+                        end) ps;
+  let d0 := map (fun l => (l, [])) (first_seen (map (chain_lang default tt_lang) divs)) in
+  let d := fold_left (fun d o => match o with Some (l, c) => dict_push l c d | None => d end) caps d0 in
   if all_empty d then Err ENoCaptions else Ok d.
 
 (* ---- SAMI -------------------------------------------------------------------------------------- *)
